@@ -6,7 +6,7 @@ search : optional directed search run when an obligation broke and no slice prod
 CORE = ["Base", "Strings", "Num", "Builtins", "Interp", "Machine", "Spec"]
 REFINE = CORE + ["HeapFacts", "Refine1", "Refine2", "Refine3", "Refine4"]
 PROPS = {
- "C02": dict(needs=REFINE + ["FuelMono", "LinkStack", "Scope", "RunG", "SeqProofs", "CallRules"], gen=["GenStack"], slices=[("slices_core", "core_programs"), ("slices_core", "small_core"), ("slices_values", "c02_callables"), ("slices_core", "spec_vs_machine")]),
+ "C02": dict(needs=REFINE + ["FuelMono", "LinkStack", "Scope", "RunG", "SeqProofs", "CallRules"], gen=["GenStack"], slices=[("slices_core", "core_programs"), ("slices_core", "small_core"), ("slices_core", "closure_factories"), ("slices_values", "c02_callables"), ("slices_core", "spec_vs_machine")]),
  "C03": dict(needs=REFINE + ["RelA", "RelB", "RelC", "RunG", "ShortCircuit"], gen=[], slices=[("slices_lazy", "c03_bombs"), ("slices_core", "core_programs")]),
  "C05": dict(needs=REFINE + ["LinkStack", "Progress", "RunG", "FuelMono", "Float", "Arith", "Loops", "Loops2"], gen=["GenStack"], slices=[("slices_faults", "c05_ladders"), ("slices_core", "core_programs")]),
  "C07": dict(needs=REFINE + ["RunG", "Pure", "Eq", "Deep", "IOSpec", "MonadLaws"], gen=[], slices=[("slices_core", "io_trees")]),
@@ -16,13 +16,13 @@ PROPS = {
  "C01": dict(needs=["Base", "Num", "Lex", "Jamo", "SpecC01", "Skeleton"], gen=["GenParse", "GenTS"], slices=[("slices_text", "c01_exhaustive"), ("slices_text", "c01_model_points"), ("slices_text", "c01_respell")]),
  "C08": dict(needs=["Base", "Num", "NumProofs", "Lex", "ParseProofs", "Strings", "Builtins", "Interp", "LinkNames", "ImpSearch"], gen=["GenParse", "GenNames", "GenIO"], slices=[("slices_text", "c08_codec"), ("slices_text", "c08_spellings"), ("slices_world", "c15_search")]),
  "C09": dict(needs=["Base", "Num", "NumProofs", "Lex", "ParseProofs"], gen=["GenParse"], slices=[("slices_text", "c09_parse")]),
- "C14": dict(needs=["Files", "FilesProofs", "LinkNames"], gen=["GenIO"], slices=[("slices_world", "c14_histories"), ("slices_world", "c14_faults")]),
+ "C14": dict(needs=["Files", "FilesProofs", "FilesTotal", "LinkNames"], gen=["GenIO"], slices=[("slices_world", "c14_histories"), ("slices_world", "c14_total_histories"), ("slices_world", "c14_faults")]),
  "C15": dict(needs=["ImpSearch", "ImportProofs", "ImpLoad"], gen=[], slices=[("slices_world", "c15_search"), ("slices_world", "c15_semantics")]),
  "C06": dict(needs=CORE + ["Float", "Eq"], gen=[], slices=[("slices_values", "c06_eq")]),
  "C12": dict(needs=REFINE + ["SeqProofs", "SliceReal", "RunG", "SeqSpec"], gen=[], slices=[("slices_values", "c12_seq")]),
  "C16": dict(needs=CORE + ["RunG", "Codec", "Bits", "Utf", "Utf16"], gen=[], slices=[("slices_values", "c16_codecs")]),
  "C17": dict(needs=CORE + ["RunG", "Codec", "Bits", "LinkBits", "Float", "RoundProofs"], gen=["GenBitwise"], slices=[("slices_values", "c17_bits")]),
- "C18": dict(needs=CORE + ["PrintInt", "PrintDict"], gen=[], slices=[("slices_values", "c18_print"), ("slices_values", "c18_cli")]),
+ "C18": dict(needs=CORE + ["PrintInt", "PrintDict", "HeapFacts", "Refine1", "Refine2", "RunG", "Pure", "IOSpec", "Cli"], gen=[], slices=[("slices_values", "c18_print"), ("slices_values", "c18_cli")]),
  "C13": dict(needs=REFINE + ["RunG", "Exc", "Once", "CountDef", "Count"], gen=[], slices=[("slices_core", "c13_once"), ("slices_core", "core_programs")]),
  "C04": dict(needs=CORE + ["Events", "Progress", "NumProofs", "Lex", "ParseProofs", "LinkErr"], gen=["GenErr", "GenParse"], slices=[("slices_faults", "c04_sweep"), ("slices_world", "c14_faults"), ("slices_world", "c15_semantics"), ("slices_text", "c09_parse"), ("slices_core", "core_programs")]),
  "C20": dict(needs=CORE + ["FuelMono", "Isolation"], gen=["GenNondet"], slices=[("slices_world", "c20_isolation")]),
